@@ -1048,7 +1048,7 @@ def extract_fn(repo, spec, features):
         txt = ' '.join(t.text for t in hdr)
         PATH = r'((?:\w+ \. )*\w+)'
         mA = re.fullmatch(r'for \( (\w+) , (\w+) \) in ' + PATH + r' \. iter \( \) \. enumerate \( \)(?: \. skip \( (\w+) \))?', txt)
-        mB = re.fullmatch(r'for \( (\w+) , \( (\w+) , (\w+) \) \) in ' + PATH + r' \. iter \( \) \. zip \( ' + PATH
+        mB = re.fullmatch(r'for \( (\w+) , \( (\w+) , (\w+) \) \) in ' + PATH + r' \. iter \( \) \. zip \( (?:& )?' + PATH
                           + r' \) \. enumerate \( \)(?: \. skip \( (\w+) \))?', txt)
         #   C: for X in <EXPR> . into_iter ( ) . rev ( )      (by-value reverse iteration over a Vec)
         #      -> let verif_rev_N = <EXPR>; let mut verif_k_N = verif_rev_N.len();
